@@ -388,6 +388,16 @@ def exec : Nat → Instr → M Unit
       | some pos =>
         popScopes n
         modify (fun s => { s with pc := (pos : Int) + (s.loops.getD l {}).contOff })
+    | .assign => do
+      -- AssignInstr: no value of the core language is a symbol or selector; two arrays of
+      -- equal length bind element-wise (elements must be symbols: only the empty case succeeds)
+      incPc
+      let rhs ← popData
+      let lhs ← popData
+      let s ← get
+      match lhs, rhs with
+      | .arr a, .arr b => if (s.heap.get a).isEmpty ∧ (s.heap.get b).isEmpty then pure () else err
+      | _, _ => err
 
 /-- `EvalCallExpression`. -/
 def evalCallExpr : Nat → Expr → M Val
